@@ -260,7 +260,19 @@ class grow:
                 "only-children-without-demand-were-released": z3.ForAll([x], z3.Implies(z3.And(z3.Select(H0, x), z3.Not(z3.Select(H1, x))), z3.And(R(dem0, x) <= 0, z3.Select(M1, x)))),
                 "the-invariant-is-kept": inv(c, self)}
 
-    raises = {"AssertionError": lambda c, self, target, exc: True, "BaseException": lambda c, self, target, exc: True}
+    def _only_the_factorys_own_failure_or_a_child_without_demand(c, self, target, exc):
+        # what leaves _grow is the factory's own exception (it may raise anything), or the AssertionError about the factory's product - and that
+        # one fires only when a freshly spawned child (already in the hatchery) has no demand
+        sp = c.ctx.ghost.get("c15_spawned", [])
+        if sp and sp[-1][0] == "raise" and z3.eq(z3.simplify(sp[-1][1].t), z3.simplify(exc.t)):
+            return True
+        dem1 = fld(c, "demand", c.new_heap)
+        if sp and sp[-1][0] == "return":
+            w = sp[-1][1].t          # the child the factory handed out last: the witness
+            return c.And(exc.isa("AssertionError"), z3.Select(H_of(self), w), R(dem1, w) <= 0)
+        return False
+
+    raises = {"BaseException": _only_the_factorys_own_failure_or_a_child_without_demand}
 
     loops = {0: Loop(inv=grow_inv,
                      modifies=lambda c, L: [("trace",)] + frame_sets(L.self),
